@@ -484,6 +484,8 @@ theorem winv_cluster_step (hU : Univ U) (hT : TombClosed U) {cfg : Cfg} (hcfg : 
   | watcherRun n w => exact key n _ fun nd hnd => watcherRun_winv (hw nd hnd) w
   | notifyTick n => exact key n _ fun nd hnd => notifyTick_winv (hw nd hnd)
   | restart n => exact key n _ fun _ _ => winv_empty
+  | delete n k => exact absurd hev (by simp [GoodEv])
+  | cleanup n => exact absurd hev (by simp [GoodEv])
   | tick => exact hw
 
 theorem winv_run (hU : Univ U) (hT : TombClosed U) {cfg : Cfg} (hcfg : cfg.lit = 0) (es : List (Event Desc)) {c : Cluster Desc}
